@@ -7,7 +7,7 @@
 -/
 import Driver.Proto
 import Driver.Struct
--- [formats builder: add `import Driver.Fmt` here]
+import Driver.Fmt
 
 open Lean
 
@@ -15,7 +15,7 @@ def handleAll (j : Json) : Json :=
   match Driver.getStr j "op" with
   | .ok o =>
     if o.startsWith "struct." || o.startsWith "leb." then Driver.Struct.handle j
-    -- [formats builder: add `else if o.startsWith "fmt." then Driver.Fmt.handle j` here]
+    else if o.startsWith "fmt." then Driver.Fmt.handle j
     else Driver.jerr s!"unknown op {o}"
   | .error e => Driver.jerr e
 
